@@ -179,9 +179,15 @@ func (g *Gen) load(st *state, l *Loc) *Term {
 		}
 		return &Term{S: "(mk_" + d.name + " " + strings.Join(parts, " ") + ")", T: t}
 	}
-	if _, ok := t.Underlying().(*types.Array); ok {
-		g.rejectf("load of a whole array value")
-		return &Term{S: "0", T: t}
+	if at, ok := t.Underlying().(*types.Array); ok {
+		as := g.U.sortOf(t)
+		if as == "" {
+			g.rejectf("load of a whole array of %s", at.Elem())
+			return &Term{S: "0", T: t}
+		}
+		// the array object is one level above its elements in the element heap
+		b := g.base(st, l.base, g.leafSort(at.Elem()), len(l.idx)+1, l.local)
+		return &Term{S: sel(b, l.idx), T: t}
 	}
 	b := g.base(st, l.base, g.leafSort(t), len(l.idx), l.local)
 	r := &Term{S: sel(b, l.idx), T: t}
